@@ -110,6 +110,9 @@ func TestC04Cli(t *testing.T) {
 type c10Cmd struct {
 	Results []vegeta.Result
 	Codec   string
+	// Pauses != nil: the records arrive through a pipe whose writer pauses after these records, and the
+	// command reports periodically (-every=1ms); the last report written is the final one
+	Pauses []int `json:",omitempty"`
 }
 
 func runC10Cmd(c c10Cmd) error {
@@ -122,9 +125,24 @@ func runC10Cmd(c c10Cmd) error {
 	if err != nil {
 		return err
 	}
+	every, mode := time.Duration(0), ""
+	if len(c.Pauses) > 0 {
+		data, ends, err := vgen.EncodeAll(vgen.CodecByName(c.Codec), c.Results)
+		if err != nil {
+			return err
+		}
+		var at []int
+		for _, p := range c.Pauses {
+			at = append(at, ends[p%len(ends)])
+		}
+		if in, err = slowPipe(dir, "in.pipe", data, at, 4*time.Millisecond); err != nil {
+			return err
+		}
+		every, mode = time.Millisecond, fmt.Sprintf(" -every=1ms (records arriving through a pipe that pauses after records %v; last report written)", c.Pauses)
+	}
 	out := filepath.Join(dir, "report.json")
 	var rerr error
-	if perr := vh.Try(func() { rerr = report([]string{in}, "json", out, 0, "") }); perr != nil {
+	if perr := vh.Try(func() { rerr = report([]string{in}, "json", out, every, "") }); perr != nil {
 		return fmt.Errorf("vegeta report panics: %v", perr)
 	}
 	if rerr != nil {
@@ -134,15 +152,24 @@ func runC10Cmd(c c10Cmd) error {
 	if err != nil {
 		return err
 	}
+	if every > 0 {
+		var ndocs int
+		if b, ndocs, err = lastJSONDoc(b); err != nil || ndocs == 0 {
+			return fmt.Errorf("vegeta report%s: %d reports in the output, %v", mode, ndocs, err)
+		}
+	}
 	rep, err := c13NormJSON(b)
 	if err != nil {
 		return fmt.Errorf("report output does not parse: %v", err)
 	}
 	if fmt.Sprint(rep["requests"]) != fmt.Sprint(len(c.Results)) {
-		return fmt.Errorf("vegeta report on a %s file of %d records counts %v requests", c.Codec, len(c.Results), rep["requests"])
+		return fmt.Errorf("vegeta report%s on a %s file of %d records counts %v requests", mode, c.Codec, len(c.Results), rep["requests"])
 	}
 	if err := c13Absolute(rep, c.Results); err != nil {
-		return fmt.Errorf("vegeta report -type=json on a %s file of %d records: %v", c.Codec, len(c.Results), err)
+		return fmt.Errorf("vegeta report -type=json%s on a %s file of %d records: %v", mode, c.Codec, len(c.Results), err)
+	}
+	if every > 0 {
+		return nil
 	}
 	// the text report of the same file shows the same request count and status codes
 	outT := filepath.Join(dir, "report.txt")
@@ -176,8 +203,11 @@ func TestC10ReportCmd(t *testing.T) {
 			}
 			c.Results = append(c.Results, r)
 		}
+		if rapid.IntRange(0, 5).Draw(t, "periodic") == 0 {
+			c.Pauses = rapid.SliceOfN(rapid.IntRange(0, n-1), 1, 3).Draw(t, "pauses")
+		}
 		sig, _ := json.Marshal(c)
-		vh.Case("C10.reportcmd", string(sig), zeroAfterSet, c.Codec)
+		vh.Case("C10.reportcmd", string(sig), zeroAfterSet, c.Codec, fmt.Sprintf("periodic:%v", len(c.Pauses) > 0))
 		if len(sig) < 1200 {
 			vh.Sample("C10.reportcmd", zeroAfterSet, c)
 		}
